@@ -38,6 +38,10 @@ struct Tracked : TBase {
   int touch() const { check("touch"); return 1; }
   int kind() const override { return 1; }
 };
+struct Holder {
+  Tracked inner;
+  explicit Holder(int p) : inner(p) {}
+};
 struct Held { std::vector<std::shared_ptr<Tracked>> kept; };
 std::map<long, std::unique_ptr<Registry>> g_regs;
 std::map<long, std::unique_ptr<Held>> g_held;
@@ -84,6 +88,15 @@ static mj::Value cmd_c11(const mj::Value &rq) {
     chai.add(fun(&Tracked::touch), "touch");
     chai.add(fun(&TBase::kind), "kind");
     chai.add(type_conversion<int, Tracked>([](int v) { return Tracked(v + 5000); }));
+    // references into an object: the temporary they come from must outlive their use within the statement
+    chai.add(user_type<Holder>(), "Holder");
+    chai.add(constructor<Holder(int)>(), "Holder");
+    chai.add(constructor<Holder(const Holder &)>(), "Holder");
+    chai.add(fun(&Holder::inner), "inner");
+    chai.add(fun([](int p) { return Holder(p); }), "make_holder");
+    chai.add(fun([](Tracked &t) -> Tracked & { t.touch(); return t; }), "self");
+    chai.add(fun([](Tracked &t) -> Tracked & { t.touch(); return t; }), "pass_ref");
+    chai.add(fun([](const Tracked &t) -> const Tracked & { t.touch(); return t; }), "pass_cref");
     chai.add(fun([](Tracked t) { return t.get(); }), "by_value");
     chai.add(fun([](Tracked &t) { return t.get(); }), "by_ref");
     chai.add(fun([](const Tracked &t) { return t.get(); }), "by_cref");
